@@ -2,7 +2,7 @@
   Amoco.Proofs.ExprSoundEqn — value-soundness steps for the rewrite rules proper
   (`eqn1 eqn2tail eqn2snd eqn2cst normL normR eqn2norm eqn2`).
 -/
-import Amoco.Proofs.ExprSoundSlice
+import Amoco.Proofs.ExprSoundBitslice
 
 namespace Amoco
 
@@ -487,7 +487,7 @@ theorem eqn2snd_sstep (opts : Opts) (o : Op) (l : Expr) (rv rs : Nat) (rf : Bool
         rw [hc'' x, if_pos ((tiles_exists hlt x).mpr hx)]
       have := ih.simplify { bitslice := opts.bitslice } (Expr.comp lsize sf ps')
         (by simp only [WF]; exact ⟨hlpos, htl, (WFParts_iff _).mpr hw'⟩)
-        (by simp only [Plain]; exact (plainParts_iff _).mpr hq') ⟨rfl, hwd.2⟩
+        (by simp only [Plain]; exact (plainParts_iff _).mpr hq') (show OptsOK { bitslice := opts.bitslice } from rfl)
       refine SPost_of_eq this ?_
       rw [hv, hrv]
       simp only [size_comp]
@@ -590,7 +590,6 @@ theorem eqn2cst_sstep (opts : Opts) (o : Op) (l : Expr) (rv rs : Nat) (rf : Bool
   have hll := ideal_lt ρ l hl
   have szl : ∀ {o' : Op}, o = o' → o'.type ≠ 4 → o' ≠ Op.mul2 → l.size = size := by
     intro o' h h4 hm; subst h; rw [hs]; simp [resSize, h4, hm]
-  have hbs : opts.bitslice = false := hopt.2
   split
   · -- value = 0
     rename_i hval
@@ -682,68 +681,146 @@ theorem eqn2cst_sstep (opts : Opts) (o : Op) (l : Expr) (rv rs : Nat) (rf : Bool
             have e3 : j < i1 := by omega
             have e5 : j < i2 + 1 := by omega
             simp [e3, e4, e5]
-        · rw [hbs]
-          simp only [Bool.false_and, Bool.false_eq_true, if_false]
+        · have testBit_lt : ∀ (V n : Nat), V < 2 ^ n → ∀ j, V.testBit j = (decide (j < n) && V.testBit j) := by
+            intro V n hV j
+            by_cases hj : j < n
+            · simp [hj]
+            · simp [hj, testBit_of_lt V n j hV (by omega)]
           split
-          · rename_i h
-            simp only [Bool.and_eq_true, Bool.or_eq_true, beq_iff_eq, decide_eq_true_eq] at h
-            refine SPostO_some (by simp [Plain]) ?_
-            simp only [ideal, Nat.zero_mod]
-            rcases h.1 with h' | h'
-            · subst h'; simp only [binSem]; rw [if_pos h.2]
-            · subst h'; simp only [binSem]; exact (shr_ge_width _ _ _ hll h.2).symm
-          · rename_i hge
-            simp only [Bool.and_eq_true, Bool.or_eq_true, beq_iff_eq, decide_eq_true_eq, not_and, not_le] at hge
-            split
-            · -- shl to comp
-              rename_i h
-              simp only [beq_iff_eq] at h
-              subst h
-              have hlt := hge (Or.inl rfl)
-              apply SPostO_bind; intro c1 h1
-              apply SPostO_bind; intro piece hpc
-              apply SPostO_bind; intro c2 h2
-              apply SPostO_bind; intro y hy
-              have hpw := wih.getitem l _ _ hl piece hpc
-              have hpv := ih.getitem l _ _ hl hql piece hpc
-              have := zero_then_piece_sem ih l.size sf _ _ piece c1 c2 y hlpos hpw.1 hpv.1 h1 h2 hy
-              refine SPostO_some this.1 ?_
-              apply Nat.eq_of_testBit_eq; intro j
-              rw [this.2 j, hpv.2, testBit_bitsOf]
-              simp only [binSem]
-              rw [if_neg (by omega), Nat.testBit_mod_two_pow, Nat.testBit_shiftLeft]
-              simp only [Int.toNat_natCast, Nat.cast_le, Nat.cast_lt, Int.toNat_zero, Nat.zero_add]
-              by_cases h1 : rv ≤ j
-              · by_cases h2 : j < l.size
-                · have e1 : j - rv < ((l.size : Int) - (rv : Int)).toNat - 0 := by omega
-                  simp [h1, h2, e1]
-                  intro _; omega
-                · simp [h2]
-              · simp [h1]
-            · split
-              · rename_i h
-                simp only [beq_iff_eq] at h
-                subst h
-                have hlt := hge (Or.inr rfl)
-                apply SPostO_bind; intro c1 h1
-                apply SPostO_bind; intro piece hpc
-                apply SPostO_bind; intro c2 h2
-                apply SPostO_bind; intro y hy
-                have hpw := wih.getitem l _ _ hl piece hpc
-                have hpv := ih.getitem l _ _ hl hql piece hpc
-                have := zero_then_piece_sem ih l.size sf _ _ piece c1 c2 y hlpos hpw.1 hpv.1 h1 h2 hy
-                refine SPostO_some this.1 ?_
-                apply Nat.eq_of_testBit_eq; intro j
-                rw [this.2 j, hpv.2, testBit_bitsOf]
-                simp only [binSem, Nat.testBit_shiftRight]
-                simp only [Int.toNat_natCast, Nat.cast_le, Nat.cast_lt, Int.toNat_zero, Nat.sub_zero]
-                by_cases h2 : j < l.size - rv
-                · have e1 : ((0 : Int) ≤ (j : Int) ∧ (j : Int) < (l.size : Int) - (rv : Int)) := by omega
-                  simp [h2, e1]
-                · have e1 : ¬ ((0 : Int) ≤ (j : Int) ∧ (j : Int) < (l.size : Int) - (rv : Int)) := by omega
-                  have : (ideal ρ l).testBit (rv + j) = false := testBit_of_lt _ _ _ hll (by omega)
-                  simp [e1, this]
-              · exact SPostO_none _ _
+          · -- bitslice of a logic operator
+            rename_i h
+            simp only [Bool.and_eq_true, Bool.or_eq_true, beq_iff_eq] at h
+            have ho : o = Op.and ∨ o = Op.or ∨ o = Op.xor := by
+              rcases h.2 with (h' | h') | h'
+              · exact Or.inl h'
+              · exact Or.inr (Or.inl h')
+              · exact Or.inr (Or.inr h')
+            have hsz : l.size = size := by
+              rcases ho with h' | h' | h' <;> exact szl h' (by simp [Op.type]) (by simp)
+            have hrs : l.size = rs := by
+              have := heq (by rcases ho with rfl | rfl | rfl <;> simp [Op.type]); simpa using this
+            apply SPostO_bind; intro bits hbits
+            obtain ⟨hlen, hok⟩ := bitslice_logic_bits ih o ho l rv rs rf size l.size hl hql hr bits hbits
+            apply SPostO_bind; intro c hc
+            have hV : binSem o false l.size (ideal ρ l) rv < 2 ^ size := by
+              have := binSem_lt o false l.size (ideal ρ l) rv hll (fun _ => by rw [hrs]; exact hr.2) hlpos
+              rcases ho with rfl | rfl | rfl <;> simpa [Op.type, hsz] using this
+            have := compose_bits_sem ih bits sf _ (binSem o false l.size (ideal ρ l) rv) hok
+              (by intro j; rw [hlen]; exact testBit_lt _ _ hV j) c hc
+            exact SPostO_some this.1 this.2
+          · split
+            · rename_i h
+              simp only [Bool.and_eq_true, Bool.or_eq_true, beq_iff_eq, decide_eq_true_eq] at h
+              refine SPostO_some (by simp [Plain]) ?_
+              simp only [ideal, Nat.zero_mod]
+              rcases h.1 with h' | h'
+              · subst h'; simp only [binSem]; rw [if_pos h.2]
+              · subst h'; simp only [binSem]; exact (shr_ge_width _ _ _ hll h.2).symm
+            · rename_i hge
+              simp only [Bool.and_eq_true, Bool.or_eq_true, beq_iff_eq, decide_eq_true_eq, not_and, not_le] at hge
+              split
+              · -- bitslice shl
+                rename_i h
+                simp only [Bool.and_eq_true, beq_iff_eq] at h
+                obtain ⟨_, rfl⟩ := h
+                have hsz := szl rfl (by simp [Op.type]) (by simp)
+                have hlt := hge (Or.inl rfl)
+                apply SPostO_bind; intro bits hbits
+                obtain ⟨hlen, _, hok⟩ := bits_of_sem ih l hl hql _ _ bits hbits
+                have hok2 := BitsOK_append (BitsOK_bit0s ρ rv) hok
+                apply SPostO_bind; intro c hc
+                have := compose_bits_sem ih (bit0s rv ++ bits) sf _ (binSem Op.lsl false l.size (ideal ρ l) rv) hok2
+                  (by
+                    intro j
+                    have hl1 : (bit0s rv).length = rv := by simp [bit0s]
+                    have hl2 : (bit0s rv ++ bits).length = l.size := by
+                      rw [List.length_append, hl1, hlen]; omega
+                    rw [hl2, hl1]
+                    simp only [binSem]
+                    rw [if_neg (by omega), Nat.testBit_mod_two_pow, Nat.testBit_shiftLeft]
+                    simp only [Int.toNat_zero, Nat.zero_add]
+                    by_cases h1 : j < rv
+                    · have : ¬ j ≥ rv := by omega
+                      simp [h1, this]
+                    · have : j ≥ rv := by omega
+                      simp [h1, this]) c hc
+                exact SPostO_some this.1 this.2
+              · split
+                · -- bitslice shr
+                  rename_i h
+                  simp only [Bool.and_eq_true, beq_iff_eq] at h
+                  obtain ⟨_, rfl⟩ := h
+                  have hsz := szl rfl (by simp [Op.type]) (by simp)
+                  have hlt := hge (Or.inr rfl)
+                  apply SPostO_bind; intro bits hbits
+                  obtain ⟨hlen, _, hok⟩ := bits_of_sem ih l hl hql _ _ bits hbits
+                  have hok2 := BitsOK_append hok (BitsOK_bit0s ρ rv)
+                  apply SPostO_bind; intro c hc
+                  have := compose_bits_sem ih (bits ++ bit0s rv) sf _ (binSem Op.lsr false l.size (ideal ρ l) rv) hok2
+                    (by
+                      intro j
+                      have hl1 : (bit0s rv).length = rv := by simp [bit0s]
+                      have hlen' : bits.length = l.size - rv := by rw [hlen]; omega
+                      have hl2 : (bits ++ bit0s rv).length = l.size := by
+                        rw [List.length_append, hl1, hlen']; omega
+                      rw [hl2, hlen']
+                      simp only [binSem, Nat.testBit_shiftRight, Int.toNat_natCast]
+                      by_cases h1 : j < l.size - rv
+                      · have : j < l.size := by omega
+                        simp [h1, this]
+                      · have : (ideal ρ l).testBit (rv + j) = false := testBit_of_lt _ _ _ hll (by omega)
+                        simp [h1, this]) c hc
+                  exact SPostO_some this.1 this.2
+                · split
+                  · -- shl to comp
+                    rename_i h
+                    simp only [beq_iff_eq] at h
+                    subst h
+                    have hlt := hge (Or.inl rfl)
+                    apply SPostO_bind; intro c1 h1
+                    apply SPostO_bind; intro piece hpc
+                    apply SPostO_bind; intro c2 h2
+                    apply SPostO_bind; intro y hy
+                    have hpw := wih.getitem l _ _ hl piece hpc
+                    have hpv := ih.getitem l _ _ hl hql piece hpc
+                    have := zero_then_piece_sem ih l.size sf _ _ piece c1 c2 y hlpos hpw.1 hpv.1 h1 h2 hy
+                    refine SPostO_some this.1 ?_
+                    apply Nat.eq_of_testBit_eq; intro j
+                    rw [this.2 j, hpv.2, testBit_bitsOf]
+                    simp only [binSem]
+                    rw [if_neg (by omega), Nat.testBit_mod_two_pow, Nat.testBit_shiftLeft]
+                    simp only [Int.toNat_natCast, Nat.cast_le, Nat.cast_lt, Int.toNat_zero, Nat.zero_add]
+                    by_cases h1 : rv ≤ j
+                    · by_cases h2 : j < l.size
+                      · have e1 : j - rv < ((l.size : Int) - (rv : Int)).toNat - 0 := by omega
+                        simp [h1, h2, e1]
+                        intro _; omega
+                      · simp [h2]
+                    · simp [h1]
+                  · split
+                    · rename_i h
+                      simp only [beq_iff_eq] at h
+                      subst h
+                      have hlt := hge (Or.inr rfl)
+                      apply SPostO_bind; intro c1 h1
+                      apply SPostO_bind; intro piece hpc
+                      apply SPostO_bind; intro c2 h2
+                      apply SPostO_bind; intro y hy
+                      have hpw := wih.getitem l _ _ hl piece hpc
+                      have hpv := ih.getitem l _ _ hl hql piece hpc
+                      have := zero_then_piece_sem ih l.size sf _ _ piece c1 c2 y hlpos hpw.1 hpv.1 h1 h2 hy
+                      refine SPostO_some this.1 ?_
+                      apply Nat.eq_of_testBit_eq; intro j
+                      rw [this.2 j, hpv.2, testBit_bitsOf]
+                      simp only [binSem, Nat.testBit_shiftRight]
+                      simp only [Int.toNat_natCast, Nat.cast_le, Nat.cast_lt, Int.toNat_zero, Nat.sub_zero]
+                      by_cases h2 : j < l.size - rv
+                      · have e1 : ((0 : Int) ≤ (j : Int) ∧ (j : Int) < (l.size : Int) - (rv : Int)) := by omega
+                        simp [h2, e1]
+                      · have e1 : ¬ ((0 : Int) ≤ (j : Int) ∧ (j : Int) < (l.size : Int) - (rv : Int)) := by omega
+                        have : (ideal ρ l).testBit (rv + j) = false := testBit_of_lt _ _ _ hll (by omega)
+                        simp [e1, this]
+                    · exact SPostO_none _ _
 
 omit ih in
 theorem Plain_notTop {e : Expr} (h : Plain e) : e.isTop = false := by
